@@ -1320,6 +1320,11 @@ func (n *N) loops(list []ast.Stmt) []ast.Stmt {
 			}
 		case *ast.RangeStmt:
 			x.Body.List = n.loops(x.Body.List)
+			if un := n.unrollTable(x, out); un != nil {
+				n.rewrote = true
+				out = append(out[:len(out)-1], un...)
+				continue
+			}
 			if x.Value == nil && x.Key != nil && x.Tok == token.DEFINE {
 				if r := n.indexToRange(x.Key, x.X, x.Body, x); r != nil {
 					out = append(out, r)
@@ -1349,6 +1354,149 @@ func (n *N) loops(list []ast.Stmt) []ast.Stmt {
 		out = append(out, s)
 	}
 	return out
+}
+
+// unrollTable: `tab := [...]struct{…}{{a1, b1}, {a2, b2}}; for _, f := range tab { … f.x … f.y … }` with tab used
+// for nothing else and the body free of break/continue/closures is the body once per row with the row's
+// expressions in place of f.x, f.y - the straight-line code a table-driven loop was made from. prev is the
+// statement list so far; its last statement must be the definition of tab.
+func (n *N) unrollTable(x *ast.RangeStmt, prev []ast.Stmt) []ast.Stmt {
+	if len(prev) == 0 || x.Tok != token.DEFINE || x.Value == nil || n.root == nil {
+		return nil
+	}
+	if x.Key != nil {
+		if id, ok := x.Key.(*ast.Ident); !ok || id.Name != "_" {
+			return nil
+		}
+	}
+	tid, ok := unparenExpr(x.X).(*ast.Ident)
+	if !ok {
+		return nil
+	}
+	to := n.objOf(tid)
+	def, ok := prev[len(prev)-1].(*ast.AssignStmt)
+	if !ok || def.Tok != token.DEFINE || len(def.Lhs) != 1 || len(def.Rhs) != 1 || to == nil || n.objOf(def.Lhs[0]) != to {
+		return nil
+	}
+	lit, ok := unparenExpr(def.Rhs[0]).(*ast.CompositeLit)
+	if !ok || len(lit.Elts) == 0 || len(lit.Elts) > 16 {
+		return nil
+	}
+	var elemT types.Type
+	if tv, ok := n.Info.Types[lit]; ok && tv.Type != nil {
+		switch u := tv.Type.Underlying().(type) {
+		case *types.Array:
+			elemT = u.Elem()
+		case *types.Slice:
+			elemT = u.Elem()
+		}
+	}
+	if elemT == nil {
+		return nil
+	}
+	st, ok := elemT.Underlying().(*types.Struct)
+	if !ok {
+		return nil
+	}
+	vo := n.objOf(x.Value)
+	if vo == nil {
+		return nil
+	}
+	// the table is used by this loop only
+	usesT := 0
+	ast.Inspect(n.root, func(m ast.Node) bool {
+		if id, ok := m.(*ast.Ident); ok && n.Info.Uses[id] == to {
+			usesT++
+		}
+		return true
+	})
+	if usesT != 1 {
+		return nil
+	}
+	// the body reads the row through its fields only; no jumps, no closures, no writes to the row
+	type use struct {
+		sel   *ast.SelectorExpr
+		field string
+	}
+	var uses []use
+	bad := false
+	selOf := map[*ast.Ident]bool{}
+	ast.Inspect(x.Body, func(m ast.Node) bool {
+		switch y := m.(type) {
+		case *ast.SelectorExpr:
+			if id, ok := y.X.(*ast.Ident); ok && n.Info.Uses[id] == vo {
+				uses = append(uses, use{y, y.Sel.Name})
+				selOf[id] = true
+			}
+		case *ast.BranchStmt, *ast.FuncLit, *ast.ReturnStmt, *ast.DeferStmt, *ast.GoStmt:
+			bad = true
+		case *ast.AssignStmt:
+			// the rows were computed before the loop: a body that assigns anything but new locals could change
+			// what a later row's expressions read
+			if y.Tok != token.DEFINE {
+				bad = true
+			}
+		case *ast.IncDecStmt:
+			bad = true
+		case *ast.UnaryExpr:
+			if y.Op == token.AND {
+				bad = true
+			}
+		}
+		return true
+	})
+	ast.Inspect(x.Body, func(m ast.Node) bool {
+		if id, ok := m.(*ast.Ident); ok && n.Info.Uses[id] == vo && !selOf[id] {
+			bad = true
+		}
+		return true
+	})
+	if bad || len(uses) == 0 {
+		return nil
+	}
+	var out []ast.Stmt
+	for _, el := range lit.Elts {
+		row, ok := el.(*ast.CompositeLit)
+		if !ok {
+			return nil
+		}
+		vals := map[string]ast.Expr{}
+		for i, fe := range row.Elts {
+			if kv, ok := fe.(*ast.KeyValueExpr); ok {
+				id, ok := kv.Key.(*ast.Ident)
+				if !ok {
+					return nil
+				}
+				vals[id.Name] = kv.Value
+				continue
+			}
+			if i >= st.NumFields() {
+				return nil
+			}
+			vals[st.Field(i).Name()] = fe
+		}
+		repl := map[ast.Node]ast.Node{}
+		for _, u := range uses {
+			v, ok := vals[u.field]
+			if !ok || !simpleValue(n, v) {
+				return nil
+			}
+			repl[u.sel] = v
+		}
+		c := &cloner{n: n, from: n.Info, repl: repl}
+		nb := c.node(x.Body).(*ast.BlockStmt)
+		out = append(out, nb.List...)
+	}
+	return out
+}
+
+// simpleValue: a constant or a plain field path - an expression whose value does not depend on when it is read
+// within the loop and that has no effect.
+func simpleValue(n *N, e ast.Expr) bool {
+	if tv, ok := n.Info.Types[e]; ok && tv.Value != nil {
+		return true
+	}
+	return simpleArg(e)
 }
 
 // headTailToRange rewrites `for ; len(L) > 0; L = L[1:] {… L[0] …}` - the list consumed from the front -
